@@ -31,6 +31,7 @@ def units(tier):
     rep = alpha.bt_rep(3, B)
     for k in range(len(rep)):
         yield {"leg": "api", "B": B, "k": k}
+    yield {"leg": "large"}
 
 
 def _regions(bins):
@@ -139,17 +140,23 @@ def _api_table(R, table, tier, only, tindex=0):
     try:
         # the store is given as a plain path, as a URI to a nested group, or as an open HDF5 handle, rotating over the tables
         kind = ("path", "uri", "handle")[tindex % 3]
+        first_uri = p if kind == "path" else p + "::/deep/grp"
+        build.create(first_uri, bins, pix, True)
+        # a SECOND collection in the same file on a different table with the same chromosome names and bin counts (every
+        # chromosome's widths reversed): queried alternately with the first one
+        table2 = tuple(tuple(reversed(c)) for c in table)
+        bins2 = alpha.table_bins(table2, flavour)
+        if table2 != table:
+            build.create(p + "::/second", bins2, {(0, 0): 1}, True, mode="a")
         if kind == "path":
-            build.create(p, bins, pix, True)
             clr = cooler.Cooler(p)
+        elif kind == "uri":
+            clr = cooler.Cooler(p + "::deep/grp")
         else:
-            build.create(p + "::/deep/grp", bins, pix, True)
-            if kind == "uri":
-                clr = cooler.Cooler(p + "::deep/grp")
-            else:
-                import h5py
-                h5 = h5py.File(p, "r")
-                clr = cooler.Cooler(h5["/deep/grp"])
+            import h5py
+            h5 = h5py.File(p, "r")
+            clr = cooler.Cooler(h5["/deep/grp"])
+        second = cooler.Cooler(p + "::/second") if table2 != table else None
         R.cls("api-store:" + kind)
         R.add("states")
         R.add("traces")
@@ -171,6 +178,13 @@ def _api_table(R, table, tier, only, tindex=0):
                 R.add("transitions", 6)
                 R.cls("api-spelling:" + sp_name)
                 try:
+                    if second is not None and sp_name == "tuple":
+                        L2 = models.ref_chromsizes(bins2)[c]
+                        s2, e2 = min(s, L2), min(e, L2)
+                        l2, h2 = [int(x) for x in second.extent((c, s2, e2))]
+                        msg2 = _judge(bins2, c, s2, e2, l2, h2)
+                        if msg2:
+                            R.mismatch("Cooler.extent!=cover(second-collection-of-the-file)", inner, msg2 + f" bins={bins2}")
                     lo, hi = clr.extent(reg)
                     lo, hi = int(lo), int(hi)
                     exts[(c, s, e)] = (lo, hi)
@@ -224,7 +238,64 @@ def _api_table(R, table, tier, only, tindex=0):
         scratch.rm(p)
 
 
+def _large(R, only):
+    """coordinates at the edge of int32: fixed 1 Mb bins on chromosomes of 2**31-1 and 5,000,001 bp (and a variable-width variant);
+    whole-chromosome, open-ended and explicit ranges at both ends"""
+    import cooler
+    R.add("states", 2)
+    R.add("traces", 2)
+    L = 2 ** 31 - 1
+    for var in (False, True):
+        sizes = [("chrS", 5000001), ("chrL", L)]
+        bins = models.ref_binnify(sizes, 1000000)
+        if var:   # merge the first two bins of each chromosome: a variable-width table with the same ends
+            nb = []
+            for c, _ in sizes:
+                cb = [b for b in bins if b[0] == c]
+                nb += [(c, 0, cb[1][2])] + cb[2:]
+            bins = nb
+        p = scratch.fresh()
+        try:
+            build.create(p, bins, {(0, 0): 1, (3, len(bins) - 1): 2}, True)
+            clr = cooler.Cooler(p)
+            kk = 0
+            for c, Lc in sizes:
+                regs = [(c, 0, Lc), (c, None, None), c, f"{c}:0-", f"{c}:{Lc - 1}-", (c, Lc - 1, None), (c, Lc - 1500000, None), f"{c}:{Lc - 1500000:,}-{Lc:,}",
+                        (c, Lc - 1, Lc), (c, 1999999, 2000001), f"{c}:2M-3M", (c, Lc - 2, Lc - 1), (c, 0, 1)]
+                for reg in regs:
+                    kk += 1
+                    inner = {"variable": var, "region": list(reg) if isinstance(reg, tuple) else reg}
+                    if only is not None and only != inner:
+                        continue
+                    R.order = (R.order[0], kk)
+                    R.ev(1, 1)
+                    R.add("transitions", 2)
+                    R.cls("large-coordinates")
+                    if isinstance(reg, tuple):
+                        s, e = reg[1], reg[2]
+                    else:
+                        _, s, e = models.ref_region_string(reg)
+                    s = 0 if s is None else s
+                    e = Lc if e is None else e
+                    try:
+                        lo, hi = [int(x) for x in clr.extent(reg)]
+                        msg = _judge(bins, c, s, e, lo, hi)
+                        if msg:
+                            R.mismatch("Cooler.extent!=cover(large-coordinates)", inner, msg)
+                            continue
+                        bf = clr.bins().fetch(reg)
+                        if list(bf.index) != list(range(lo, hi)):
+                            R.mismatch("bins.fetch!=cover(large-coordinates)", inner, f"{list(bf.index)[:3]}..")
+                    except Exception as ex:
+                        R.mismatch("raises:" + type(ex).__name__, inner, f"{ex!s:.200}")
+        finally:
+            scratch.rm(p)
+
+
 def run(unit, R, tier, only=None):
+    if unit["leg"] == "large":
+        _large(R, only)
+        return
     if unit["leg"] == "func":
         tabs = alpha.bin_tables(3, unit["B"])[unit["lo"]:unit["hi"]]
         for t in tabs:
